@@ -436,6 +436,8 @@ class Gen:
                           if (os.path.join(ROOT, d) if d else ROOT) != parent]
                 od = r.choice(others)
                 lp = os.path.join(od, r.choice(["aaa_", "zz_"]) + name)
+                if lp in files or any(l["path"] == lp for l in links):
+                    continue
                 links.append({"path": lp, "target": os.path.relpath(f, od), "kind": "xfile"})
                 if f not in file_links or r.random() < 0.5:
                     file_links[f] = lp
